@@ -441,6 +441,14 @@ func (b *builder) processFunction(root *functionNode, props *builderProp) (query
 		if arg3, err = b.processNode(root.Args[2], flagsEnum.None, props); err != nil {
 			return nil, err
 		}
+		// Like matches() (issue #92): a constant pattern that does not compile is reported by Compile.
+		if q, ok := arg2.(*constantQuery); ok {
+			if pattern, isString := q.Val.(string); isString {
+				if _, err = getRegexp(pattern); err != nil {
+					return nil, fmt.Errorf("replace() got error. %v", err)
+				}
+			}
+		}
 		qyOutput = &functionQuery{Func: replaceFunc(arg1, arg2, arg3)}
 	case "translate":
 		//translate( string , string, string )
